@@ -240,7 +240,8 @@ PanicEv == /\ Is("panic")
 
 (* a try operation run alone (all other threads frozen) must finish within its bound *)
 SoloEv == /\ Is("solo")
-          /\ Flag(IF E.done /\ E.nops <= E.bound THEN {} ELSE {"C18"})
+          /\ Flag(IF E.api \in {"try_send", "try_recv", "try_recv_view"} /\ ~(E.done /\ E.nops <= E.bound)
+                  THEN {"C18"} ELSE {})
           /\ UNCHANGED <<q, pend, led>>
           /\ l' = l + 1
 
